@@ -4,6 +4,7 @@ Driver ops of component `walk` (see harness/src/c_walk.rs for the wire format):
   walk named <hex> <hex|->    → outcome of naming the file (through a link when a target is given)
 The hidden-entry flag is the generated `walkIncludesHidden`.
 -/
+import S4V.Gen.WalkTar
 import S4V.Model.Wire
 import S4V.Model.Walk
 
@@ -63,7 +64,7 @@ def stepWalk : List String → String
     | none => "bad-op"
     | some t =>
       let es := expandDirAll walkIncludesHidden t
-      if es.any tarOpenPanics then
+      if S4V.Gen.WalkTar.tarOpenUnwraps && es.any tarOpenPanics then
         "panic called `Result::unwrap()` on an `Err` value: Os { code: 2, kind: NotFound, message: \"No such file or directory\" }"
       else if es.isEmpty then "-" else
       String.intercalate ";" (es.map fun e =>
